@@ -248,6 +248,7 @@ class FakeSocket(socket.socket):
         self.so_error = 0
         self.getpeername_error: OSError | None = None
         self.calls: list[tuple] = []  # trace of I/O calls
+        self.spurious_read = False  # report readable once although nothing can be read (the read then answers EAGAIN)
         self.tx_blocked = False  # set by a harness policy after answering EAGAIN: not writable until the env unblocks
         self.last_offered: Any = None
         self.dgram_send_policy: Callable[[FakeSocket, bytes], BaseException | None] | None = None
@@ -262,7 +263,7 @@ class FakeSocket(socket.socket):
         if self.rxd is not None:
             return bool(self.rxd) or self.so_error != 0
         assert self.rx is not None
-        return bool(self.rx.q) or self.rx.eof or self.rx.error is not None
+        return bool(self.rx.q) or self.rx.eof or self.rx.error is not None or self.spurious_read
 
     def writable(self) -> bool:
         if self.tx_blocked:
@@ -284,6 +285,7 @@ class FakeSocket(socket.socket):
             return self._recv_dgram(bufsize)[0]
         rx = self.rx
         assert rx is not None
+        self.spurious_read = False
         if not rx.q:
             if rx.error is not None:
                 err, rx.error = rx.error, None
